@@ -16,7 +16,7 @@ import os
 import random
 from fractions import Fraction
 
-from vh.core import MachineryError, guarded, Raised
+from vh.core import MachineryError, guarded, Raised, other_surroundings
 
 TABLE = [('-125.4', '31.5', '0.1'), ('0', '0', '0.5'), ('164.5', '-47.95', '0.1'), ('-0.35', '5.95', '0.05'),
          ('100.05', '-10', '0.25'), ('-180', '-90', '2'), ('12.2', '41.8', '0.2')]
@@ -85,7 +85,13 @@ def run(chk, replay=None):
     def check_file(case, ti, mi, swap, then_load=None):
         tab, magtab = TABLE[ti % len(TABLE)], MAGS[mi % len(MAGS)]
         write_dat(path, case, tab, magtab, swap)
-        fc = guarded(csep.load_gridded_forecast, path, swap_latlon=swap) if swap else guarded(csep.load_gridded_forecast, path)
+        if (ti + mi) % 3 == 2:
+            # the embedding program changed process-wide settings (coarse decimal context, numpy print options, working
+            # directory) before it loaded the file
+            with other_surroundings(cwd=os.path.dirname(path)):
+                fc = guarded(csep.load_gridded_forecast, path, swap_latlon=swap) if swap else guarded(csep.load_gridded_forecast, os.path.basename(path))
+        else:
+            fc = guarded(csep.load_gridded_forecast, path, swap_latlon=swap) if swap else guarded(csep.load_gridded_forecast, path)
         chk.count()
         if isinstance(fc, Raised):
             return {'why': 'load raised', 'err': repr(fc)}
